@@ -96,3 +96,108 @@ def ff_ring(c, uid):
   spec = {"uid": uid, "structs": structs, "top": "Top", "profile": "ff_ring",
           "comps": {"Top": {"signals": signals, "subs": [], "frees": [], "items": items}}}
   return spec
+
+
+def merge_blocks(spec, c, nmerges=2):
+  """cyclic_false: merge pairs of combinational blocks of one component into one
+  block (statements of the first, then of the second).  The dataflow equations
+  are unchanged (bit-level acyclic), but the merged block may now both precede
+  and follow a third block: a false loop at block granularity.  Returns the
+  number of merges done."""
+  done = 0
+  for _ in range(nmerges):
+    cands = []
+    for cname, cd in spec["comps"].items():
+      idx = [i for i, it in enumerate(cd["items"]) if it["k"] == "comb"]
+      if len(idx) >= 3:
+        cands.append((cname, idx))
+    if not cands:
+      break
+    cname, idx = c.choice(cands)
+    i, j = sorted(c.sample(idx, 2))
+    items = spec["comps"][cname]["items"]
+    a, b = items[i], items[j]
+    # generator order == dependency order is not recoverable after the shuffle of
+    # items; the name carries the creation index: lower index first
+    def num(it):
+      try:
+        return int(it["name"][2:].split("_")[0])
+      except ValueError:
+        return 0
+    first, second = (a, b) if num(a) <= num(b) else (b, a)
+    merged = {"k": "comb", "name": "%s_%s" % (first["name"], second["name"]),
+              "stmts": first["stmts"] + second["stmts"]}
+    items[i] = merged
+    del items[j]
+    done += 1
+  spec["profile"] = "cyclic_false"
+  return done
+
+
+def true_loop(c, uid):
+  """Block-level AND bit-level cyclic designs.
+  kinds: or_ring / mux (must converge), inv_ring_odd (never converges),
+  inv_ring_even (converges), plus_ring (converges iff in0 == 0)."""
+  kind = c.choice(["or_ring", "or_ring", "mux", "inv_ring_odd", "inv_ring_even", "plus_ring", "and_ring"])
+  w = c.choice([1, 2, 4, 8])
+  n = c.randint(2, 14)
+  if kind == "inv_ring_odd" and n % 2 == 0:
+    n += 1
+  if kind == "inv_ring_even" and n % 2 == 1:
+    n += 1
+  if kind == "mux":
+    n = 2
+  if kind == "plus_ring":
+    n = c.randint(2, 4)
+  via_net = c.random() < 0.4
+  signals = [{"name": "in0", "kind": "in", "type": w, "dims": []},
+             {"name": "in1", "kind": "in", "type": w, "dims": []},
+             {"name": "sel", "kind": "in", "type": 1, "dims": []},
+             {"name": "o", "kind": "out", "type": w, "dims": []}]
+  for i in range(n):
+    signals.append({"name": "x%d" % i, "kind": "wire", "type": w, "dims": []})
+    if via_net:
+      signals.append({"name": "y%d" % i, "kind": "wire", "type": w, "dims": []})
+  items = []
+  X = lambda i: rd(A(("y%d" if via_net else "x%d") % (i % n)), w)
+  for i in range(n):
+    prev = X(i - 1)
+    if kind == "or_ring":
+      e = ["bin", "or", prev, rd(A("in0"), w)] if i % 3 == 0 else ["bin", "or", prev, ["const", w, 0]] \
+          if i % 3 == 1 else ["bin", "or", prev, rd(A("in1"), w)]
+    elif kind == "and_ring":
+      e = ["bin", "and", prev, rd(A("in0"), w)] if i == 0 else prev
+    elif kind in ("inv_ring_odd", "inv_ring_even"):
+      e = ["inv", prev]
+    elif kind == "plus_ring":
+      e = ["bin", "add", prev, rd(A("in0"), w)] if i == 0 else prev
+    else:  # mux
+      e = ["ife", rd(A("sel"), 1), rd(A("in0"), w), prev] if i == 0 else \
+          ["ife", rd(A("sel"), 1), prev, rd(A("in1"), w)]
+    items.append({"k": "comb", "name": "up%d" % i, "stmts": [["assign", A("x%d" % i), e]]})
+    if via_net:
+      items.append({"k": "connect", "a": A("y%d" % i), "b": A("x%d" % i), "flip": c.random() < 0.5,
+                    "op": "connect"})
+  items.append({"k": "connect", "a": A("o"), "b": A("x0"), "flip": False, "op": "connect"})
+  c.shuffle(items)
+  spec = {"uid": uid, "structs": {}, "top": "Top", "profile": "true_loop:" + kind,
+          "comps": {"Top": {"signals": signals, "subs": [], "frees": [], "items": items}}}
+  must_converge = kind in ("or_ring", "mux", "inv_ring_even", "and_ring")
+  never = kind == "inv_ring_odd"
+  return spec, {"kind": kind, "n": n, "must_converge": must_converge, "never_converges": never}
+
+
+def once_in_cycle_source(c, uid):
+  n = c.randint(2, 4)
+  k = c.randrange(n)
+  L = ["from pymtl3 import *", "", "class Top_%s(Component):" % uid, "  def construct(s):",
+       "    s.in0 = InPort(Bits8)"]
+  for i in range(n):
+    L.append("    s.x%d = Wire(Bits8)" % i)
+  order = list(range(n))
+  c.shuffle(order)
+  for i in order:
+    L.append("    @update_once" if i == k else "    @update")
+    L.append("    def up%d():" % i)
+    L.append("      s.x%d @= s.x%d | s.in0" % (i, (i - 1) % n))
+  return "\n".join(L) + "\n"
